@@ -262,6 +262,23 @@ func (w *World) applyTxEvent(p []string) (bool, bool) {
 		w.Announce(w.P)
 		w.settle()
 		return true, true
+	case "mineq": // mineq:<txs>: mined, announced, served and processed while every untrusted peer stays silent
+		var names []string
+		if len(p) > 1 && p[1] != "" {
+			names = strings.Split(p[1], ",")
+		}
+		w.Extend(1, names)
+		w.Announce(w.P)
+		w.settle()
+		for i := 0; i < 3; i++ {
+			for w.P != nil && len(w.P.pending) > 0 && w.P.pending[0].kind == "block" {
+				w.answerTrusted(0)
+				w.settle()
+			}
+			w.pingNode()
+			w.Tick(250 * time.Millisecond)
+		}
+		return true, true
 	case "mine", "mine+": // mine:<tx>[,<tx>]: the peer mines a block with these txs and announces it (mine+: and the node processes it)
 		var names []string
 		if len(p) > 1 && p[1] != "" {
